@@ -12,8 +12,8 @@ def read_bodies(run):
     for b in run.facts.bodies_under(C.READ):
         if b.kind != "Closure":
             continue
-        if q.live_calls(b, C.BROADCAST_SUBSCRIBE) or q.live_calls(b, C.THREAD_SPAWN):
-            out["main"] = b
+        if [c for c in q.live_calls(b, "tokio::sync::mpsc::bounded::channel") if C.frame_typed(c)]:
+            out["main"] = b   # the body that creates the per-subscriber delivery channel
         if q.live_calls(b, C.ITER_FRAMES):
             out["history"] = b
         if q.live_calls(b, C.BROADCAST_RECV):
